@@ -749,7 +749,13 @@ pub trait StoreFor<T: Storable>: Configurable + private::StoreCallbacks<T> {
             //insert a mapping from the public ID to the internal numeric ID in the idmap
             if let Some(id) = item.id() {
                 //check if public ID does not already exist
-                if self.has(id) {
+                //(as the public ID of an item: an ID in the shape of a temporary one, like "!K0",
+                // is not a duplicate of the item with that handle)
+                if self
+                    .idmap()
+                    .map(|idmap| idmap.data.contains_key(id))
+                    .unwrap_or(false)
+                {
                     //ok. the already ID exists, now is the existing item exactly the same as the item we're about to insert?
                     //in that case we can discard this error and just return the existing handle without actually inserting a new one
                     let existing_item = self.get(id).unwrap();
